@@ -650,7 +650,9 @@ func (fn *c17xFn) valueTaint(e ast.Expr, depth int) string {
 		if x.Type != nil {
 			t = strings.TrimPrefix(c17xText(fn.fset, x.Type), "&")
 		}
-		if c17xAddrLits[t] {
+		// address literals, and protobuf messages (StationToDetector.client_ip, C2SWrapper.registration_address, …):
+		// printed with %v / %s / %+v they show every field
+		if c17xAddrLits[t] || strings.HasPrefix(t, "pb.") {
 			for _, el := range x.Elts {
 				if w := fn.valueTaint(el, depth+1); w != "" {
 					return w
@@ -1079,6 +1081,9 @@ func (fn *c17xFn) ctorSrcs(call *ast.CallExpr, ft string, pos token.Pos, depth i
 		}
 		if isN := fn.isNum(a, pos, 0); isN {
 			continue
+		}
+		if verb != "" && strings.Contains("dboxXeEfFgGctU", verb) {
+			continue // printed as a number / character / boolean: no address text
 		}
 		// .Error() texts and error variables used inside the operand: flattened
 		rest := true
